@@ -600,6 +600,93 @@ fn search_idl(seed: u64, budget: usize) -> Option<Value> {
 }
 
 // ---------------------------------------------------------------------------------------------
+// C14: render -> parse -> compare.  A random interface description is BUILT with the crate's public constructors (comments
+// on the interface, members, direct fields / parameters and custom-enum variants; inline types without comments), rendered
+// with Display, parsed back by the real parser, and the two descriptions are compared through the public accessors,
+// comments included (the crate's own PartialEq impls ignore comments); the parsed description must render to the same text.
+fn leak(s: String) -> &'static str { Box::leak(s.into_boxed_str()) }
+fn rt_comments(rng: &mut Rng, max: usize) -> Vec<String> {
+    (0..rng.below(max + 1)).map(|_| ["plain note", "", "a) note: x -> (y, z)", "na\u{ef}ve \u{2013} gr\u{fc}n", "TODO", "x  y"][rng.below(6)].to_string()).collect()
+}
+fn rt_type(t: &GTy) -> zlink_core::idl::Type<'static> {
+    use zlink_core::idl::{EnumVariant, Field, List, Type, TypeRef};
+    match t {
+        GTy::Prim("bool") => Type::Bool, GTy::Prim("int") => Type::Int, GTy::Prim("float") => Type::Float, GTy::Prim("string") => Type::String, GTy::Prim(_) => Type::ForeignObject,
+        GTy::Custom(n) => Type::Custom(leak(n.clone())),
+        GTy::Opt(i) => Type::Optional(TypeRef::new_owned(rt_type(i))), GTy::Arr(i) => Type::Array(TypeRef::new_owned(rt_type(i))), GTy::Map(i) => Type::Map(TypeRef::new_owned(rt_type(i))),
+        GTy::Struct(fs) => Type::Object(List::from(fs.iter().map(|(n, t)| Field::new_owned(leak(n.clone()), rt_type(t), vec![])).collect::<Vec<_>>())),
+        GTy::Enum(vs) => Type::Enum(List::from(vs.iter().map(|n| EnumVariant::new_owned(leak(n.clone()), vec![])).collect::<Vec<_>>())),
+    }
+}
+fn rt_dump_ty(t: &zlink_core::idl::Type<'_>) -> String {
+    use zlink_core::idl::Type as T;
+    match t {
+        T::Object(fs) => format!("({})", fs.iter().map(|f| format!("{:?}{}:{}", f.comments().map(|c| c.text().to_string()).collect::<Vec<_>>(), f.name(), rt_dump_ty(f.ty()))).collect::<Vec<_>>().join(",")),
+        T::Enum(vs) => format!("<{}>", vs.iter().map(|v| format!("{:?}{}", v.comments().map(|c| c.text().to_string()).collect::<Vec<_>>(), v.name())).collect::<Vec<_>>().join("|")),
+        T::Optional(i) => format!("?{}", rt_dump_ty(i.inner())), T::Array(i) => format!("[]{}", rt_dump_ty(i.inner())), T::Map(i) => format!("[string]{}", rt_dump_ty(i.inner())),
+        other => p_canon_ty(other),
+    }
+}
+fn rt_dump(i: &zlink_core::idl::Interface<'_>) -> String {
+    use zlink_core::idl::CustomType;
+    let cs = |it: &mut dyn Iterator<Item = String>| format!("{:?}", it.collect::<Vec<_>>());
+    let fl = |it: &mut dyn Iterator<Item = &zlink_core::idl::Field<'_>>| it.map(|f| format!("{:?}{}:{}", f.comments().map(|c| c.text().to_string()).collect::<Vec<_>>(), f.name(), rt_dump_ty(f.ty()))).collect::<Vec<_>>().join(",");
+    let mut out = format!("{} {}\n", cs(&mut i.comments().map(|c| c.text().to_string())), i.name());
+    for t in i.custom_types() { match t {
+        CustomType::Object(o) => out.push_str(&format!("T {} {} ({})\n", cs(&mut o.comments().map(|c| c.text().to_string())), o.name(), fl(&mut o.fields()))),
+        CustomType::Enum(e) => out.push_str(&format!("T {} {} <{}>\n", cs(&mut e.comments().map(|c| c.text().to_string())), e.name(),
+            e.variants().map(|v| format!("{:?}{}", v.comments().map(|c| c.text().to_string()).collect::<Vec<_>>(), v.name())).collect::<Vec<_>>().join("|"))),
+    } }
+    for m in i.methods() { out.push_str(&format!("M {} {} ({}) -> ({})\n", cs(&mut m.comments().map(|c| c.text().to_string())), m.name(), fl(&mut m.inputs()), fl(&mut m.outputs()))); }
+    for e in i.errors() { out.push_str(&format!("E {} {} ({})\n", cs(&mut e.comments().map(|c| c.text().to_string())), e.name(), fl(&mut e.fields()))); }
+    out
+}
+/// one case; `commented_variants`: custom enums may carry comments on their variants (the class of the known finding)
+fn run_idl_rt(seed: u64, commented_variants: bool) -> Option<(String, String)> {
+    use zlink_core::idl::{Comment, CustomEnum, CustomObject, CustomType, EnumVariant, Error, Field, Interface, Method};
+    let mut rng = Rng(seed.wrapping_mul(0x9E3779B97F4A7C15) | 1);
+    let rng = &mut rng;
+    let cm = |v: Vec<String>| v.into_iter().map(|c| Comment::new(leak(c))).collect::<Vec<_>>();
+    let depth = rng.below(3);
+    let name = ["org.example.test", "a.b", "a-b.c-d", "x.1y", "io.systemd.v1"][rng.below(5)];
+    let mut fields = |rng: &mut Rng, n: usize| (0..rng.below(n + 1)).map(|_| { let c = rt_comments(rng, 2); Field::new_owned(leak(g_field_name(rng)), rt_type(&g_ty(rng, depth, true)), c.into_iter().map(|c| Comment::new(leak(c))).collect()) }).collect::<Vec<_>>();
+    let mut methods = vec![]; let mut types = vec![]; let mut errors = vec![];
+    for _ in 0..rng.below(5) {
+        match rng.below(4) {
+            0 => { let fs = fields(rng, 3); types.push(CustomType::from(CustomObject::new_owned(leak(g_type_name(rng)), fs, cm(rt_comments(rng, 2))))); }
+            1 => { let vs = (0..1 + rng.below(3)).map(|_| EnumVariant::new_owned(leak(g_field_name(rng)), if commented_variants && rng.below(2) == 0 { cm(rt_comments(rng, 2)) } else { vec![] })).collect::<Vec<_>>();
+                   types.push(CustomType::from(CustomEnum::new_owned(leak(g_type_name(rng)), vs, cm(rt_comments(rng, 2))))); }
+            2 => { let (i, o) = (fields(rng, 3), fields(rng, 2)); methods.push(Method::new_owned(leak(g_type_name(rng)), i, o, cm(rt_comments(rng, 2)))); }
+            _ => { let fs = fields(rng, 2); errors.push(Error::new_owned(leak(g_type_name(rng)), fs, cm(rt_comments(rng, 2)))); }
+        }
+    }
+    let iface = Interface::new_owned(name, methods, types, errors, cm(rt_comments(rng, 2)));
+    let text = iface.to_string();
+    let want = rt_dump(&iface);
+    let t2 = text.clone();
+    let r = std::panic::catch_unwind(move || Interface::try_from(leak(t2)).map(|p| (rt_dump(&p), p.to_string())).map_err(|e| e.to_string()));
+    let why = match r {
+        Err(_) => Some("the parser panicked on a rendered description".to_string()),
+        Ok(Err(e)) => Some(format!("the rendered description does not parse: {e}")),
+        Ok(Ok((got, _))) if got != want => Some(format!("parse(render(x)) differs from x:\n  x      = {want}\n  parsed = {got}")),
+        Ok(Ok((_, again))) if again != text => Some(format!("render(parse(render(x))) differs from render(x):\n{again}")),
+        Ok(Ok(_)) => None,
+    };
+    why.map(|w| (text, w))
+}
+fn search_idl_rt(seed: u64, budget: usize) -> Option<Value> {
+    std::panic::set_hook(Box::new(|_| {}));
+    for k in 0..budget as u64 {
+        let s = seed.wrapping_mul(1_000_003).wrapping_add(k);
+        // custom enums with commented variants are the class of the recorded finding (rendered without commas): skipped here
+        if let Some((text, why)) = run_idl_rt(s, false) {
+            return Some(json!({"kind":"idl_rt","case_seed":s,"commented_variants":false,"text":text,"why":why}));
+        }
+    }
+    None
+}
+
+// ---------------------------------------------------------------------------------------------
 // C02 / C17 outbound: histories of enqueue/send/flush against the write log of the transport
 #[derive(Debug)]
 struct BadKey(usize);
@@ -1029,6 +1116,7 @@ fn main() {
             "server" => search_server(seed, budget / 10),
             "chain" => search_chain(seed, budget / 10),
             "idl" => search_idl(seed, budget),
+            "idl_rt" => search_idl_rt(seed, budget / 10),
             "send" => search_send(seed, budget / 4),
             "fair" => search_fair(seed, budget / 40),
             "faults" => search_faults(seed, budget / 10),
@@ -1124,6 +1212,15 @@ fn main() {
                 std::process::exit(1);
             }
             println!("REPLAY: passes on the real code");
+        }
+        Some("idl_rt") => {
+            std::panic::set_hook(Box::new(|_| {}));
+            let cs = w["case_seed"].as_u64().unwrap();
+            let cv = w["commented_variants"].as_bool().unwrap_or(false);
+            match run_idl_rt(cs, cv) {
+                Some((text, why)) => { println!("rendered description:\n{text}\n{why}\nREPLAY: FAILS on the real code"); std::process::exit(1); }
+                None => println!("REPLAY: passes on the real code"),
+            }
         }
         Some("idl_tree") => {
             let t = w["text"].as_str().unwrap();
